@@ -631,3 +631,7 @@ def r5(ctx):
         cmpok = any(isinstance(c, ast.Compare) and qv in names_in(c) and refv in names_in(c) for c in walk_no_nested(loops[0]))
         ok = ok and cmpok
     ctx.emit('C15-R5', ok, SEQUTILS, m, detail, key='md-upper-case', what='create_MD_tag writes reference bases in the case of the FASTA')
+
+
+from . import shared as _shared
+_shared.register('C15', 'C15')
